@@ -50,7 +50,7 @@ def std_tail(name):
         prev = None
         while prev != x:
             prev = x
-            x = re.sub(r"::<[^<>]*>", "", x)
+            x = re.sub(r"::<(?!impl )[^<>]*>", "", x)
         # protect `<impl ...>` segments
         segs = re.split(r"::(?![^<]*>)", x)
         t = "::".join(segs[-2:])
